@@ -62,3 +62,20 @@ Theorem C01_block_row_spec : forall reflen block raw, block <> [] -> seq_from_bl
     nth i raw 0 = nuc_from_site (map (fun r => cell_byte (aligned (s_cigar r) 0 (s_pos r) (s_seq r) i)) block).
 Proof. exact toma_block_row_spec. Qed.
 Print Assumptions C01_block_row_spec.
+
+(* the whole command: for every record list and every option set the model of sam.ToMultiAlign equals the position-wise
+   specification command - one FASTA record per query block in input order (skipped records removed first), whose row
+   is, position by position, the flattening of the cells the block's CIGARs align there (spec_raw), then the flank or
+   --pad rule, the window and the wrapping; the command fails exactly when some record's CIGAR walk leaves its SEQ or
+   the reference (the code's index panic) *)
+Theorem C01_command_eq_spec : forall reflen recs wrap ts te pad,
+  toma_cmd reflen recs wrap ts te pad = toma_spec_cmd reflen recs wrap ts te pad.
+Proof. exact toma_cmd_eq_spec. Qed.
+Print Assumptions C01_command_eq_spec.
+
+(* the query blocks: the non-skipped records in input order, cut into non-empty runs of one query name *)
+Theorem C01_group_records_spec : forall l,
+  concat (group_records l) = filter (fun r => negb (skipped r)) l /\
+  Forall (fun b => b <> [] /\ exists nm, forall r, In r b -> s_name r = nm) (group_records l).
+Proof. exact group_records_spec. Qed.
+Print Assumptions C01_group_records_spec.
